@@ -6,14 +6,20 @@ From Coq Require Import List Arith ZArith.
 From RV Require Import Val Syntax Rho Offline ListFacts OfflineCorrect Online OnlineCorrect Support ExtZ.
 Import ListNotations.
 
-(* discrete offline: every well-formed data set, including one-sample traces, yields a value *)
+(* discrete offline: every construct is supported (also precedes[b,e], so every pastified specification);
+   every well-formed data set, including one-sample traces, yields a value *)
+Theorem C17_offline_supports_all :
+  forall (VS : Val) (p q : formula), supported DiscOff p = true /\ supported_pastified DiscOff p q = true.
+Proof. intros VS p q. split; reflexivity. Qed.
+Print Assumptions C17_offline_supports_all.
+
 Theorem C17_ok_offline :
   forall (VS : Val) (AR : Arith VS) (pk : formula -> formula -> pkind) (T : Type)
          (p : formula) (ts : list T) (w : trace),
-    1 <= length ts -> wf_bounds p = true -> supported DiscOff p = true -> wf_trace p w (length ts) ->
+    1 <= length ts -> wf_bounds p = true -> wf_trace p w (length ts) ->
     exists r, evaluate AR pk p ts w = Ok r /\ length r = length ts.
 Proof.
-  intros VS AR pk T p ts w Hn Hb Hs Hw. simpl in Hs.
+  intros VS AR pk T p ts w Hn Hb Hw.
   exists (combine ts (tab (rho AR pk p w (length ts)) (length ts))). split.
   - apply evaluate_correct; assumption.
   - rewrite combine_length, tab_length. apply Nat.min_id.
@@ -53,5 +59,8 @@ Print Assumptions C17_never_other_exception.
 Example C17_nonvacuous :
   let p : @formula ExtZVal := Or (UntilT 0 1 (Var 0) (Var 1)) (Once (Var 0)) in
   supported DiscOff p = true /\ supported DiscOn p = false /\ supported DenseOff p = true /\ supported DenseOn p = false /\
-  supported DenseOff (SPrev (Var 0)) = false.
+  supported DenseOff (SPrev (Var 0)) = false /\
+  (* the pastified form of p: supported by both discrete-time monitors, by no dense-time monitor *)
+  let q : @formula ExtZVal := Or (Precedes 0 1 (Var 0) (Var 1)) (OnceT 1 1 (Once (Var 0))) in
+  supported DiscOff q = true /\ supported DiscOn q = true /\ supported DenseOff q = false /\ supported DenseOn q = false.
 Proof. repeat split. Qed.
